@@ -10,7 +10,9 @@ RULE = ("corpus (D1 witness) first; then (a) every Appendix-A boundary for cap 3
         "position substituted by each of the 256 byte values, (c) exhaustive strings over the alphabet "
         "{G,SP,/,:,CR,LF,0x80,H} (raw, and as header block after a valid request line) into a 32-byte buffer one byte "
         "per read, (d) all 2-piece splits and byte-at-a-time delivery of valid/invalid/pipelined streams with EOF or "
-        "io error and with/without Pending, (e) random mutations x random schedules x random read index, (f) the "
+        "io error and with/without Pending, (d2) pipelined messages with junk between them (stray CRLFs, lone LF/CR, SP, HTAB) "
+        "through read_http_request under every two-way split / byte-at-a-time / single read and as pre-filled buffer "
+        "states, each sequence compared with the schedule-free seq_spec, (e) random mutations x random schedules x random read index, (f) the "
         "error->status and HeadError->HttpError tables. Non-trivial = the model outcome is not plain Truncated/"
         "Disconnected (a head was parsed or a parse/size error was classified); distinct by full case text.")
 ASSUMPTIONS = [
@@ -281,6 +283,36 @@ def splits(rng, tier):
     return cs
 
 
+def interjunk(rng, tier):
+    """pipelined messages with junk BETWEEN them (stray CRLFs, lone LF / CR, a space), read through
+    read_http_request under every two-way split, byte-at-a-time and in a single read: whatever is
+    already in the buffer from an earlier read must be treated exactly like bytes still to come"""
+    cs = []
+    h1, h2, h3 = b"A /1 HTTP/1.1" + CRLF2, b"B /2 HTTP/1.1" + CRLF2, b"C /3 HTTP/1.1\r\nK: v" + CRLF2
+    junks = [b"\r\n", b"\r\n\r\n", b"\n", b"\r", b" ", b"\r\n ", b"\n\r\n", b"\r\n\r", b"\t", b"\r\r\n"]
+    if tier != "quick":
+        junks += [b"\r\n\r\n\r\n", b"\x00", b"\r\n\n", b" \r\n", b"\r\n\r\n "]
+    for j in junks:
+        tg = ["interjunk-" + j.hex()]
+        for stream in (h1 + j + h2, h1 + j + h2 + j + h3, j + h1 + h2, h1 + h2 + j):
+            for cap in (32, 200):
+                n = len(stream)
+                k = 4
+                cs.append(pipe_case(cap, k, stream, [], "eof", 0, tg + ["interjunk-byte-at-a-time"]))
+                cs.append(pipe_case(cap, k, stream, [n + 1], "eof", 0, tg + ["interjunk-single-read"]))
+                cs.append(pipe_case(cap, k, stream, [cap] * 8, "err", 1, tg + ["interjunk-single-read"]))
+                for i in range(1, n):
+                    cs.append(pipe_case(cap, k, stream, [i, n + 1, n + 1, n + 1], "eof" if i % 2 else "err", i % 2, tg + ["interjunk-2-split"]))
+                # the same situation as a buffer state handed to one read_http_request call:
+                # the first message already consumed, i further bytes already in the buffer
+                rest = stream[len(h1):] if stream.startswith(h1) else stream
+                for i in range(0, min(len(rest), cap - 17) + 1):
+                    rd = 17 if i > 0 else 0
+                    cs.append(head_case("req", cap, rd, rest[:i], rest[i:], [len(rest) + 1], "eof", 0, tg + ["interjunk-buffered-%s" % ("some" if i else "none")]))
+                    cs.append(head_case("req", cap, rd, rest[:i], rest[i:], [], "eof", 1, tg + ["interjunk-buffered-%s" % ("some" if i else "none")]))
+    return cs
+
+
 def randoms(rng, tier):
     cs = []
     n = 4000 if tier == "quick" else 400000
@@ -322,6 +354,7 @@ def gen(rng, tier):
     cs += ["status " + e for e in HTTP_ERRORS] + ["conv " + e for e in HEAD_ERRORS]
     cs += boundaries(rng, tier)
     cs += splits(rng, tier)
+    cs += interjunk(rng, tier)
     cs += byte_mutations(rng, tier)
     cs += randoms(rng, tier)
     cs += exhaustive_small(tier)
